@@ -249,18 +249,15 @@ func confirmNonTermination(check string, args json.RawMessage, timeout time.Dura
 }
 
 var selfMergeRe = regexp.MustCompile(`<<\s*:\s*\[?\s*\*`)
-var multiPathRe = regexp.MustCompile(`path:\s*\[[^\]\n]*,`)
 
 // hangCause names the construct that makes a load loop.  In the reference-cycle stream every input is a named
-// shape (the two recorded defects have their own names; any *other* cycle shape that stops returning is a new
+// shape (the recorded defects have their own names; any *other* cycle shape that stops returning is a new
 // key).  In the random streams the cause is read off the input, so the key is stable across seeds.
 func hangCause(a c01Args) string {
 	if strings.HasPrefix(a.Shape, "cycle/") {
 		switch {
 		case strings.HasPrefix(a.Shape, "cycle/alias-self-merge"):
 			return "alias-self-merge"
-		case strings.HasPrefix(a.Shape, "cycle/include-override-position"):
-			return "include-override-position"
 		case strings.HasPrefix(a.Shape, "cycle/alias-override-cycle"):
 			return "alias-override-cycle"
 		}
@@ -274,11 +271,6 @@ func hangCause(a c01Args) string {
 	for _, c := range a.Req.Files {
 		if strings.Contains(c, "!override") && strings.Contains(c, "&") && strings.Contains(c, "*") {
 			return "alias-override-cycle"
-		}
-	}
-	for _, c := range a.Req.Files {
-		if strings.Contains(c, "include") && multiPathRe.MatchString(c) {
-			return "include-override-position"
 		}
 	}
 	return shapeClass(a.Shape)
